@@ -338,6 +338,62 @@ Proof.
   specialize (HQ eq_refl). rewrite Eb in HQ. exact HQ.
 Qed.
 
+(* ---- what the white-space skipper skips is white space ------------------------------------------------------------------------------ *)
+Lemma skipLWS_at_skipped_ws ie : forall r k,
+  match skipLWS_at ie r k with
+  | LOk n => forall j, (j < n - k)%nat -> exists c, nth_error r j = Some c /\ is_ws c = true
+  | LEOH n crl => forall j, (j < n - k + crl)%nat -> exists c, nth_error r j = Some c /\ is_ws c = true
+  | LMore _ => True
+  end.
+Proof.
+  intros r. remember (length r) as m eqn:Hm. revert r Hm.
+  induction m as [m IH] using lt_wf_ind. intros r Hm k. destruct r as [|c r1]; cbn [skipLWS_at]; [exact I|].
+  cbn [length] in Hm.
+  (* the recursive call on a suffix r' reached after a prefix a of white space, counter k' = k + |a| *)
+  assert (Step : forall a r' k', c :: r1 = a ++ r' -> (length r' < m)%nat -> k' = (k + length a)%nat -> Forall (fun x => is_ws x = true) a ->
+            match skipLWS_at ie r' k' with
+            | LOk n => forall j, (j < n - k)%nat -> exists c0, nth_error (c :: r1) j = Some c0 /\ is_ws c0 = true
+            | LEOH n crl => forall j, (j < n - k + crl)%nat -> exists c0, nth_error (c :: r1) j = Some c0 /\ is_ws c0 = true
+            | LMore _ => True
+            end).
+  { intros a r' k' Ea Hl Ek Ha. pose proof (IH (length r') Hl r' eq_refl k') as H. pose proof (skipLWS_at_bounds ie r' k') as Hb.
+    assert (G : forall j, (j < length a)%nat -> exists c0, nth_error (c :: r1) j = Some c0 /\ is_ws c0 = true).
+    { intros j Hj. rewrite Ea, nth_error_app1 by exact Hj. destruct (nth_error a j) as [x|] eqn:En; [|apply nth_error_None in En; lia].
+      exists x. split; [reflexivity|]. rewrite Forall_forall in Ha. apply Ha. eapply nth_error_In. exact En. }
+    destruct (skipLWS_at ie r' k') as [n|n crl|n]; [| |exact I].
+    - intros j Hj. destruct (lt_dec j (length a)) as [Hlt|Hge]; [apply G; exact Hlt|].
+      destruct (H (j - length a)%nat ltac:(lia)) as (c0 & Hc & Hw). exists c0. split; [|exact Hw].
+      rewrite Ea, nth_error_app2 by lia. exact Hc.
+    - intros j Hj. destruct (lt_dec j (length a)) as [Hlt|Hge]; [apply G; exact Hlt|].
+      destruct (H (j - length a)%nat ltac:(lia)) as (c0 & Hc & Hw). exists c0. split; [|exact Hw].
+      rewrite Ea, nth_error_app2 by lia. exact Hc. }
+  assert (Wsp : forall x, is_sp x = true -> is_ws x = true) by (intros x H; unfold is_ws; rewrite H; reflexivity).
+  assert (Wcr : forall x, is_cr x = true -> is_ws x = true) by (intros x H; unfold is_ws, is_crlf; rewrite H; apply orb_true_r).
+  assert (Wlf : forall x, is_lf x = true -> is_ws x = true) by (intros x H; unfold is_ws, is_crlf; rewrite H; rewrite !orb_true_r; reflexivity).
+  destruct (is_sp c) eqn:Esp.
+  { apply (Step [c] r1 (S k)); [reflexivity|lia|cbn; lia|repeat constructor; auto]. }
+  destruct (is_cr c) eqn:Ecr.
+  { destruct r1 as [|d r2]; [exact I|]. cbn [length] in *.
+    destruct (is_lf d) eqn:Elf.
+    { destruct r2 as [|e r3].
+      - destruct ie; [|exact I]. intros j Hj. destruct j as [|[|j]]; [exists c; auto|exists d; auto|lia].
+      - cbn [length] in *. destruct (is_sp e) eqn:Ee.
+        + apply (Step [c; d] (e :: r3) (k + 2)%nat); [reflexivity|cbn [length]; lia|cbn; lia|repeat constructor; auto].
+        + intros j Hj. destruct j as [|[|j]]; [exists c; auto|exists d; auto|lia]. }
+    destruct (is_sp d) eqn:Ed.
+    - apply (Step [c] (d :: r2) (k + 1)%nat); [reflexivity|cbn [length]; lia|cbn; lia|repeat constructor; auto].
+    - intros j Hj. destruct j as [|j]; [exists c; auto|lia]. }
+  destruct (is_lf c) eqn:Elf.
+  { destruct r1 as [|d r2]; [exact I|]. cbn [length] in *. destruct (is_sp d) eqn:Ed.
+    - apply (Step [c] (d :: r2) (k + 1)%nat); [reflexivity|cbn [length]; lia|cbn; lia|repeat constructor; auto].
+    - intros j Hj. destruct j as [|j]; [exists c; auto|lia]. }
+  intros j Hj. lia.
+Qed.
+Lemma skipLWS_ok_ws r n : skipLWS false r = LOk n -> forall j, (j < n)%nat -> exists c, nth_error r j = Some c /\ is_ws c = true.
+Proof. intros H j Hj. pose proof (skipLWS_at_skipped_ws false r 0) as X. unfold skipLWS in H. rewrite H in X. apply X. lia. Qed.
+Lemma skipLWS_eoh_ws r n crl : skipLWS false r = LEOH n crl -> forall j, (j < n + crl)%nat -> exists c, nth_error r j = Some c /\ is_ws c = true.
+Proof. intros H j Hj. pose proof (skipLWS_at_skipped_ws false r 0) as X. unfold skipLWS in H. rewrite H in X. apply X. lia. Qed.
+
 (* ---- the name and the colon (converse direction of C07, every input) ------------------------------------------------------------- *)
 Definition range_pre (pre : list byte) (a b : N) (p : byte -> bool) : Prop :=
   forall j, a <= j -> j < b -> exists c, bpre pre j = Some c /\ p c = true.
@@ -364,6 +420,29 @@ Proof.
   - rewrite Forall_forall in Hall. apply Hall. eapply nth_error_In. exact En.
 Qed.
 
+Definition brange (buf : list byte) (a b : N) (p : byte -> bool) : Prop :=
+  forall j, a <= j -> j < b -> exists c, nth_error buf (N.to_nat j) = Some c /\ p c = true.
+Lemma nth_forall_firstn (p : byte -> bool) : forall k (r : list byte),
+  (forall j, (j < k)%nat -> exists c, nth_error r j = Some c /\ p c = true) -> Forall (fun c => p c = true) (firstn k r).
+Proof.
+  induction k as [|k IH]; intros r H; [constructor|]. destruct r as [|x r].
+  - destruct (H 0%nat ltac:(lia)) as (c & Hc & _). discriminate Hc.
+  - cbn [firstn]. constructor.
+    + destruct (H 0%nat ltac:(lia)) as (c & Hc & Hp). cbn in Hc. injection Hc as ->. exact Hp.
+    + apply IH. intros j Hj. exact (H (S j) ltac:(lia)).
+Qed.
+(* bytes of the unread part, on the whole buffer *)
+Lemma brange_rest pre rest m0 m p : (forall j, (m0 <= j)%nat -> (j < m)%nat -> exists c, nth_error rest j = Some c /\ p c = true) ->
+  brange (rev pre ++ rest) (nnat (length pre) + nnat m0) (nnat (length pre) + nnat m) p.
+Proof.
+  intros H j Ha Hb. set (j' := N.to_nat (j - nnat (length pre))).
+  destruct (H j' ltac:(unfold j', nnat in *; lia) ltac:(unfold j', nnat in *; lia)) as (c & Hc & Hp). exists c. split; [|exact Hp].
+  rewrite nth_error_app2 by (rewrite rev_length; unfold nnat in *; lia). rewrite rev_length.
+  replace (N.to_nat j - length pre)%nat with j' by (unfold j', nnat in *; lia). exact Hc.
+Qed.
+Lemma brange_join buf a b c p : brange buf a b p -> brange buf b c p -> brange buf a c p.
+Proof. intros H1 H2 j Ha Hc. destruct (N.lt_ge_cases j b) as [H|H]; [apply H1|apply H2]; assumption. Qed.
+
 (* name, blanks, colon: cpos is the offset of the colon *)
 Definition colon_ok (pre : list byte) (i : N) (h : hdr) (cpos : N) : Prop :=
   0 < pl (h_name h) /\ range_pre pre (po (h_name h)) (pf_end (h_name h)) nmb /\
@@ -385,24 +464,27 @@ Definition NT (a : N) (pre : list byte) (i : N) (st : hline) : Prop :=
   | HName => po (h_name h) = a /\ pl (h_name h) = 0 /\ a <= i /\ range_pre pre a i nmb /\ pl (h_val h) = 0
   | HNameEnd => po (h_name h) = a /\ 0 < pl (h_name h) /\ range_pre pre a (pf_end (h_name h)) nmb /\ pf_end (h_name h) <= i /\
                 range_pre pre (pf_end (h_name h)) i is_sp /\ pl (h_val h) = 0
-  | HBodyStart => po (h_name h) = a /\ pl (h_val h) = 0 /\ exists cpos, colon_ok pre i h cpos
-  | HVal | HValEnd => po (h_name h) = a /\ exists cpos, colon_ok pre i h cpos /\ cpos < po (h_val h)
+  | HBodyStart => po (h_name h) = a /\ pl (h_val h) = 0 /\ exists cpos, colon_ok pre i h cpos /\ range_pre pre (cpos + 1) i is_ws
+  | HVal => po (h_name h) = a /\ exists cpos, colon_ok pre i h cpos /\ cpos < po (h_val h) /\ po (h_val h) <= i /\ range_pre pre (cpos + 1) (po (h_val h)) is_ws
+  | HValEnd => po (h_name h) = a /\ exists cpos, colon_ok pre i h cpos /\ cpos < po (h_val h) /\ po (h_val h) <= i /\ range_pre pre (cpos + 1) (po (h_val h)) is_ws /\
+               pf_end (h_val h) <= i /\ range_pre pre (pf_end (h_val h)) i is_ws
   | _ => True
   end.
 (* on the whole buffer, at the return *)
-Definition brange (buf : list byte) (a b : N) (p : byte -> bool) : Prop :=
-  forall j, a <= j -> j < b -> exists c, nth_error buf (N.to_nat j) = Some c /\ p c = true.
-Definition name_colon (a : N) (buf : list byte) (h : hdr) : Prop :=
+Definition name_colon (a o : N) (buf : list byte) (h : hdr) : Prop :=
   po (h_name h) = a /\ 0 < pl (h_name h) /\ brange buf a (pf_end (h_name h)) nmb /\
   exists cpos, pf_end (h_name h) <= cpos /\ brange buf (pf_end (h_name h)) cpos is_sp /\ nth_error buf (N.to_nat cpos) = Some 58 /\
-    (pl (h_val h) = 0 \/ cpos < po (h_val h)).
+    ((pl (h_val h) = 0 /\ brange buf (cpos + 1) o is_ws) \/
+     (cpos < po (h_val h) /\ brange buf (cpos + 1) (po (h_val h)) is_ws /\ brange buf (pf_end (h_val h)) o is_ws)).
 Definition NQ (a : N) (pre rest : list byte) (i o : N) (e : err) (st : hline) : Prop :=
-  e = EOk -> name_colon a (rev pre ++ rest) (hx_h st).
+  e = EOk -> name_colon a o (rev pre ++ rest) (hx_h st).
 
 Lemma range_buf pre rest a b p : b <= nnat (length pre) -> range_pre pre a b p -> brange (rev pre ++ rest) a b p.
 Proof. intros Hb H j Ha Hj. destruct (H j Ha Hj) as (c & A & B). exists c. split; [|exact B]. rewrite bpre_buf by lia. exact A. Qed.
-Lemma colon_buf a pre rest i h cpos : i = nnat (length pre) -> po (h_name h) = a -> colon_ok pre i h cpos ->
-  pl (h_val h) = 0 \/ cpos < po (h_val h) -> name_colon a (rev pre ++ rest) h.
+Lemma colon_buf a o pre rest i h cpos : i = nnat (length pre) -> po (h_name h) = a -> colon_ok pre i h cpos ->
+  ((pl (h_val h) = 0 /\ brange (rev pre ++ rest) (cpos + 1) o is_ws) \/
+   (cpos < po (h_val h) /\ brange (rev pre ++ rest) (cpos + 1) (po (h_val h)) is_ws /\ brange (rev pre ++ rest) (pf_end (h_val h)) o is_ws)) ->
+  name_colon a o (rev pre ++ rest) h.
 Proof.
   intros Hi Ha (H1 & H2 & H3 & H4 & H5 & H6) Hv. split; [exact Ha|]. split; [exact H1|]. rewrite <- Ha.
   split; [apply range_buf; [lia|exact H2]|]. exists cpos. split; [exact H3|]. split; [apply range_buf; [lia|exact H5]|].
@@ -430,6 +512,7 @@ Proof.
   assert (Hlt : i + nnat k < i + nnat (S k)) by (unfold nnat; lia).
   rewrite <- Ha in Hr1. destruct st as [h pv]. destruct h as [ty nm vl hs]. cbn in *.
   split; [exact Hp|]. split; [exact Ha|]. split; [exact Hv|]. exists (i + N.of_nat k).
+  split; [|intros j Hj1 Hj2; unfold nnat in *; lia].
   unfold colon_ok. cbn. split; [exact Hpl|]. split; [exact Hr1|]. split; [exact Hle|].
   split; [exact Hlt|]. split; [exact Hr2|exact Hb].
 Qed.
@@ -503,25 +586,37 @@ Proof.
     + apply (range_join _ _ i); [apply range_zpre; [lia|exact Hsp]|]. rewrite Hi. apply range_new; [lia|exact Hkl|exact T1].
     + rewrite E1, nth_error_app2 by lia. rewrite Lk, Nat.sub_diag. reflexivity.
   - (* HBodyStart *)
-    destruct Hs as (Ha & Hv & cpos & Hc). rewrite (hit_bstart pre _ i st Est). unfold hl_bstart.
+    destruct Hs as (Ha & Hv & cpos & Hc & Hg). rewrite (hit_bstart pre _ i st Est). unfold hl_bstart.
+    assert (Hci : cpos < i) by (destruct Hc as (_ & _ & _ & H4 & _); exact H4).
     destruct (skipLWS false (c :: r)) as [k|k crl|k] eqn:El; [| |intros E; discriminate E].
     + unfold pf_set. rewrite N.ltb_irrefl, N.sub_diag. cbv beta iota. unfold NT_res. intros _ Hk.
       pose proof (colon_ok_zpre (S k) pre (c :: r) i (hx_h st) cpos Hi Hc) as Hc'.
+      assert (Hg' : range_pre (zpre (S k) pre (c :: r)) (cpos + 1) (i + nnat k) is_ws).
+      { apply (range_join _ _ i); [apply range_zpre; [lia|exact Hg]|]. rewrite Hi. apply range_new; [lia|exact Hk|].
+        apply nth_forall_firstn. exact (skipLWS_ok_ws _ _ El). }
       match goal with |- NT _ _ _ ?S => set (st' := S) end.
       assert (F1 : hx_pv st' = None) by (subst st'; destruct st as [h pv]; exact Hp).
       assert (F2 : h_state (hx_h st') = HVal) by (subst st'; destruct st as [h pv]; destruct h; reflexivity).
       assert (F3 : h_name (hx_h st') = h_name (hx_h st)) by (subst st'; destruct st as [h pv]; destruct h; reflexivity).
       assert (F5 : h_val (hx_h st') = mkpf (i + nnat k) 0) by (subst st'; destruct st as [h pv]; destruct h; reflexivity).
       clearbody st'. unfold NT. split; [exact F1|]. cbv zeta. rewrite F2, F3, F5. split; [exact Ha|].
-      exists cpos. split; [exact (colon_ok_name _ _ _ _ _ F3 Hc')|]. destruct Hc as (_ & _ & _ & H4 & _). cbn [po]. lia.
-    + intros _. apply (colon_buf a pre _ i _ cpos Hi); [destruct st as [h pv]; destruct h; cbn in *; exact Ha| |left; destruct st as [h pv]; destruct h; cbn in *; exact Hv].
-      destruct st as [h pv]; destruct h; cbn in *; exact Hc.
+      exists cpos. split; [exact (colon_ok_name _ _ _ _ _ F3 Hc')|]. cbn [po]. split; [lia|]. split; [unfold nnat; lia|exact Hg'].
+    + intros _.
+      assert (Hgb : brange (rev pre ++ c :: r) (cpos + 1) (i + nnat k + nnat crl) is_ws).
+      { apply (brange_join _ _ i); [apply range_buf; [lia|exact Hg]|]. rewrite Hi.
+        replace (nnat (length pre) + nnat k + nnat crl) with (nnat (length pre) + nnat (k + crl)) by (unfold nnat; lia).
+        replace (nnat (length pre)) with (nnat (length pre) + nnat 0) at 1 by (unfold nnat; lia).
+        apply brange_rest. intros j _ Hj. exact (skipLWS_eoh_ws _ _ _ El j Hj). }
+      apply (colon_buf a _ pre _ i _ cpos Hi); [destruct st as [h pv]; destruct h; cbn in *; exact Ha| |].
+      * destruct st as [h pv]; destruct h; cbn in *; exact Hc.
+      * left. split; [destruct st as [h pv]; destruct h; cbn in *; exact Hv|exact Hgb].
   - (* HVal *)
-    destruct Hs as (Ha & cpos & Hc & Hcv). rewrite (hit_val pre _ i st Est). unfold hl_val. cbv zeta.
-    destruct (skipn (skipToken (c :: r)) (c :: r)) as [|d r'] eqn:Sk; [intros E; discriminate E|].
-    unfold pf_extend. destruct (i + nnat (skipToken (c :: r)) <? po (h_val (hx_h st))); [exact I|]. cbv beta iota.
-    unfold hl_valend. destruct (skipLWS false (d :: r')) as [k2|k2 crl|k2]; [| |intros E; discriminate E].
-    + unfold NT_res. intros _ Hk. set (kk := S (skipToken (c :: r) + k2)) in *.
+    destruct Hs as (Ha & cpos & Hc & Hcv & Hvi & Hg). rewrite (hit_val pre _ i st Est). unfold hl_val. cbv zeta.
+    set (k := skipToken (c :: r)) in *.
+    destruct (skipn k (c :: r)) as [|d r'] eqn:Sk; [intros E; discriminate E|].
+    unfold pf_extend. replace (i + nnat k <? po (h_val (hx_h st))) with false by lia. cbv beta iota.
+    unfold hl_valend. destruct (skipLWS false (d :: r')) as [k2|k2 crl|k2] eqn:El; [| |intros E; discriminate E].
+    + unfold NT_res. intros _ Hk. set (kk := S (k + k2)) in *.
       pose proof (colon_ok_zpre kk pre (c :: r) i (hx_h st) cpos Hi Hc) as Hc'.
       match goal with |- NT _ _ _ ?S => set (st' := S) end.
       assert (F1 : hx_pv st' = None) by (subst st'; destruct st as [h pv]; exact Hp).
@@ -529,12 +624,26 @@ Proof.
       assert (F3 : h_name (hx_h st') = h_name (hx_h st)) by (subst st'; destruct st as [h pv]; destruct h; reflexivity).
       assert (F5 : po (h_val (hx_h st')) = po (h_val (hx_h st))) by (subst st'; destruct st as [h pv]; destruct h; reflexivity).
       clearbody st'. unfold NT. split; [exact F1|]. cbv zeta. rewrite F2, F3, F5. split; [exact Ha|].
-      exists cpos. split; [exact (colon_ok_name _ _ _ _ _ F3 Hc')|exact Hcv].
-    + intros _. apply (colon_buf a pre _ i _ cpos Hi); [destruct st as [h pv]; destruct h; cbn in *; exact Ha| |right; destruct st as [h pv]; destruct h; cbn in *; exact Hcv].
-      destruct st as [h pv]; destruct h; cbn in *; exact Hc.
+      exists cpos. split; [exact (colon_ok_name _ _ _ _ _ F3 Hc')|]. split; [exact Hcv|]. split; [lia|].
+      apply range_zpre; [lia|exact Hg].
+    + unfold NT_res, NQ. intros _.
+      match goal with |- name_colon _ _ _ (hx_h ?S) => set (st' := S) end.
+      assert (F3 : h_name (hx_h st') = h_name (hx_h st)) by (subst st'; destruct st as [h pv]; destruct h; reflexivity).
+      assert (F5 : h_val (hx_h st') = mkpf (po (h_val (hx_h st))) (i + nnat k - po (h_val (hx_h st)))) by (subst st'; destruct st as [h pv]; destruct h; reflexivity).
+      clearbody st'.
+      assert (Hr : forall j, (k <= j)%nat -> (j < k + (k2 + crl))%nat -> exists c0, nth_error (c :: r) j = Some c0 /\ is_ws c0 = true).
+      { intros j Hj1 Hj2. destruct (skipLWS_eoh_ws _ _ _ El (j - k)%nat ltac:(lia)) as (c0 & Hc0 & Hw0). exists c0. split; [|exact Hw0].
+        assert (Lk : length (firstn k (c :: r)) = k) by (unfold k, skipToken; apply firstn_length_span).
+        rewrite <- (firstn_skipn k (c :: r)), Sk. rewrite nth_error_app2 by lia.
+        replace (j - length (firstn k (c :: r)))%nat with (j - k)%nat; [exact Hc0|]. f_equal. symmetry. unfold k, skipToken. apply firstn_length_span. }
+      apply (colon_buf a _ pre _ i _ cpos Hi); [rewrite F3; exact Ha|exact (colon_ok_name _ _ _ _ _ F3 Hc)|].
+      right. rewrite F5. unfold pf_end. cbn [po pl]. split; [exact Hcv|]. split; [apply range_buf; [lia|exact Hg]|].
+      replace (po (h_val (hx_h st)) + (i + nnat k - po (h_val (hx_h st)))) with (nnat (length pre) + nnat k) by lia.
+      replace (i + nnat k + nnat k2 + nnat crl) with (nnat (length pre) + nnat (k + (k2 + crl))) by (unfold nnat in *; lia).
+      apply brange_rest. exact Hr.
   - (* HValEnd *)
-    destruct Hs as (Ha & cpos & Hc & Hcv). rewrite (hit_valend pre _ i st Est). unfold hl_valend.
-    destruct (skipLWS false (c :: r)) as [k2|k2 crl|k2]; [| |intros E; discriminate E].
+    destruct Hs as (Ha & cpos & Hc & Hcv & Hvi & Hg & Hei & Hg2). rewrite (hit_valend pre _ i st Est). unfold hl_valend.
+    destruct (skipLWS false (c :: r)) as [k2|k2 crl|k2] eqn:El; [| |intros E; discriminate E].
     + unfold NT_res. intros _ Hk. set (kk := S (0 + k2)) in *.
       pose proof (colon_ok_zpre kk pre (c :: r) i (hx_h st) cpos Hi Hc) as Hc'.
       match goal with |- NT _ _ _ ?S => set (st' := S) end.
@@ -543,9 +652,19 @@ Proof.
       assert (F3 : h_name (hx_h st') = h_name (hx_h st)) by (subst st'; destruct st as [h pv]; destruct h; reflexivity).
       assert (F5 : po (h_val (hx_h st')) = po (h_val (hx_h st))) by (subst st'; destruct st as [h pv]; destruct h; reflexivity).
       clearbody st'. unfold NT. split; [exact F1|]. cbv zeta. rewrite F2, F3, F5. split; [exact Ha|].
-      exists cpos. split; [exact (colon_ok_name _ _ _ _ _ F3 Hc')|exact Hcv].
-    + intros _. apply (colon_buf a pre _ i _ cpos Hi); [destruct st as [h pv]; destruct h; cbn in *; exact Ha| |right; destruct st as [h pv]; destruct h; cbn in *; exact Hcv].
-      destruct st as [h pv]; destruct h; cbn in *; exact Hc.
+      exists cpos. split; [exact (colon_ok_name _ _ _ _ _ F3 Hc')|]. split; [exact Hcv|]. split; [lia|].
+      apply range_zpre; [lia|exact Hg].
+    + intros _.
+      match goal with |- name_colon _ _ _ (hx_h ?S) => set (st' := S) end.
+      assert (F3 : h_name (hx_h st') = h_name (hx_h st)) by (subst st'; destruct st as [h pv]; destruct h; reflexivity).
+      assert (F5 : h_val (hx_h st') = h_val (hx_h st)) by (subst st'; destruct st as [h pv]; destruct h; reflexivity).
+      clearbody st'.
+      apply (colon_buf a _ pre _ i _ cpos Hi); [rewrite F3; exact Ha|exact (colon_ok_name _ _ _ _ _ F3 Hc)|].
+      right. rewrite F5. split; [exact Hcv|]. split; [apply range_buf; [lia|exact Hg]|].
+      apply (brange_join _ _ i); [apply range_buf; [lia|exact Hg2]|]. rewrite Hi.
+      replace (nnat (length pre) + nnat 0 + nnat k2 + nnat crl) with (nnat (length pre) + nnat (k2 + crl)) by (unfold nnat; lia).
+      replace (nnat (length pre)) with (nnat (length pre) + nnat 0) at 1 by (unfold nnat; lia).
+      apply brange_rest. intros j _ Hj. exact (skipLWS_eoh_ws _ _ _ El j Hj).
   - rewrite (hit_fin pre c r i st Est). intros E; discriminate E.
 Qed.
 
@@ -553,7 +672,7 @@ Qed.
    a non-empty run of bytes that are neither white space nor ':', is followed by SP / HT only up to the colon;
    the value is empty or starts after the colon *)
 Theorem hdrline_name_colon buf offs o st' : offs <= nnat (length buf) ->
-  parse_hdrline buf offs (mkhline hdr0 None) = Done o EOk st' -> name_colon offs buf (hx_h st').
+  parse_hdrline buf offs (mkhline hdr0 None) = Done o EOk st' -> name_colon offs o buf (hx_h st').
 Proof.
   intros Ho H. unfold parse_hdrline, parse in H. unfold zinit in H.
   assert (Hi : offs = nnat (length (rev (firstn (N.to_nat offs) buf)))) by (rewrite rev_length, firstn_length; unfold nnat in *; lia).
@@ -563,3 +682,4 @@ Proof.
   rewrite H in R. destruct R as (p' & r' & i' & _ & Eb & HQ). rewrite rev_involutive, firstn_skipn in Eb.
   specialize (HQ eq_refl). rewrite Eb in HQ. exact HQ.
 Qed.
+
